@@ -69,6 +69,13 @@ def main(argv):
         os.makedirs(os.path.join(ROOT, '.work'), exist_ok=True)
         work = tempfile.mkdtemp(prefix=f'{prop}_', dir=os.path.join(ROOT, '.work'))
 
+    # temporary files of the cases (manager sockets of killed processes, socket and FIFO directories) live under the work directory
+    # and disappear with it; AF_UNIX paths are limited to ~108 bytes, so only if the path is short enough
+    tmpd = os.path.join(work, 't')
+    if len(tmpd) < 64:
+        os.makedirs(tmpd, exist_ok=True)
+        env['TMPDIR'] = tmpd
+
     jobs = []  # (spec)
     if replay_file is not None:
         with open(replay_file) as f:
